@@ -1000,7 +1000,8 @@ def _expand_and_align_list_array(
     mask = pa.array(mask)
 
     # we can now construct the array — these offsets point into the source array
-    return pa.ListArray.from_arrays(offsets, lists.values, mask=mask)
+    # flatten() honours the array's own offsets (it may be a slice of a longer array)
+    return pa.ListArray.from_arrays(offsets, lists.flatten(), mask=mask)
 
 
 def _empty_rel_table(types: list[str]) -> pa.Table:
